@@ -129,6 +129,11 @@ def run(prop, tier, seed, modname=None):
     for r in results:
         for u in r.get("unknowns", []):
             v.inconclusive.append(dict(kind="solver answered unknown", cfg=r.get("cfg"), what=u))
+    for r in results:
+        if not r.get("exhaustive") and not r.get("error"):
+            v.inconclusive.append(dict(kind="configuration stopped at its deadline or path budget: the remaining "
+                                            "paths of this configuration are undecided", cfg=r.get("cfg"),
+                                       paths_decided=r.get("stats", {}).get("paths")))
     v.inconclusive = v.inconclusive[:200]
     level = getattr(mod, "LEVEL", "model_checking")
     return v.finish(level=level, rule=getattr(mod, "RULE", None))
